@@ -149,4 +149,109 @@ theorem frame_eq_header (p : Packet) :
 
 example : (⟨4, [1, 2, 3]⟩ : Packet).Valid := by simp [Packet.Valid]
 
+
+/-! ### second round: trimmed dictionary keys, long-lived decoder, session layer -/
+
+/-- `trimWs` (the model of `strings.TrimSpace` on the generator's blanks: space, \t, \n, \r)
+removes exactly a blank prefix and a blank suffix, leaves no blank at either end, and is idempotent -/
+theorem trim_spec (bs : Bytes) :
+    (∃ pre post, bs = pre ++ trimWs bs ++ post ∧ (∀ b ∈ pre, isBlank b = true) ∧ (∀ b ∈ post, isBlank b = true)) ∧
+    (∀ b, (trimWs bs).head? = some b → isBlank b = false) ∧
+    (∀ b, (trimWs bs).getLast? = some b → isBlank b = false) ∧
+    trimWs (trimWs bs) = trimWs bs :=
+  ⟨trimWs_split bs, trimWs_head_not bs, trimWs_last_not bs, trimWs_idem bs⟩
+
+example : trimWs [32, 9, 114, 32, 101, 13, 10] = [114, 32, 101] ∧ trimWs [32, 9, 10, 13] = [] := by decide
+
+/-- **Dictionary keys are stored trimmed, in BOTH maps**: when a `SetDictionary` call runs to
+the end, every entry `(key, code)` of the call can afterwards be encoded under `trim key`
+and its code decodes to `trim key` (not to the key as written); older entries are untouched. -/
+theorem SetDictionary_stores_trimmed_key (trim : Bytes → Bytes) (d d' : Dict) (es : List (Bytes × Nat))
+    (h : setDictionary trim d es = (d', true)) :
+    (∀ e ∈ es, d'.routes (trim e.1) = some e.2 ∧ d'.codes e.2 = some (trim e.1)) ∧
+    (∀ x c, d.routes x = some c → d'.routes x = some c) ∧
+    (∀ c x, d.codes c = some x → d'.codes c = some x) := by
+  obtain ⟨p1, p2, p3⟩ := setDictionary_stores trim es d d' h
+  exact ⟨p3, p1, p2⟩
+
+/-- non-vacuity, with the modelled trim: key `" a "` is stored as `"a"` in both directions -/
+example : (setDictionary trimWs [] [([32, 97, 32], 7)]).2 = true ∧
+    (setDictionary trimWs [] [([32, 97, 32], 7)]).1.codes 7 = some [97] ∧
+    (setDictionary trimWs [] [([32, 97, 32], 7)]).1.routes [97] = some 7 := by decide
+
+/-- **Map iteration order does not matter for a duplicate-free call**: if `SetDictionary`
+runs to the end for one iteration order of the Go map, it does so for every other order
+and both maps answer every lookup identically.  (A call WITH a duplicate stops at the first
+one it meets; which entries were added before is order dependent — the harness only issues
+multi-entry calls without duplicates.) -/
+theorem SetDictionary_order_independent (trim : Bytes → Bytes) (d : Dict) (es es' : List (Bytes × Nat))
+    (hp : es.Perm es') (hok : (setDictionary trim d es).2 = true) :
+    (setDictionary trim d es').2 = true ∧
+    (∀ r, (setDictionary trim d es).1.routes r = (setDictionary trim d es').1.routes r) ∧
+    (∀ c, (setDictionary trim d es).1.codes c = (setDictionary trim d es').1.codes c) := by
+  have hpair : setDictionary trim d es = ((setDictionary trim d es).1, true) := by
+    rw [← hok]
+  have hf := setDictionary_true_fresh trim es d _ hpair
+  have hpX : (trimmed trim es).Perm (trimmed trim es') := hp.map _
+  have hf' := freshFor_perm d _ _ hpX hf
+  rw [setDictionary_fresh trim es d hf, setDictionary_fresh trim es' d hf']
+  obtain ⟨l1, l2⟩ := lookups_perm _ _ hpX hf.1 hf.2.1
+  refine ⟨rfl, ?_, ?_⟩
+  · intro r; simp only [routes_append, l1]
+  · intro c; simp only [codes_append, l2]
+
+example : (setDictionary trimWs [] [([32, 97], 1), ([98, 9], 2)]).2 = true := by decide
+
+/-- **Results are values** (aliasing-freedom clause for the one long-lived packet decoder of a
+component): what a `Decode` call returned is still exactly that after up to `winCap - 1`
+further `Decode` calls on arbitrary inputs.  In a pure model this holds by construction;
+it is stated because it is the clause the differential `pdec2`/`pdecs`/`pchk` stream ties to
+the Go code, where a result CAN be changed behind the caller's back (slices into a reused buffer). -/
+theorem earlier_results_unchanged (w : List (Except PErr (List Packet))) (a : Bytes) (later : List Bytes)
+    (hl : later.length < winCap) :
+    (later.foldl (fun w d => (decodeShared w d).1) (decodeShared w a).1)[later.length]? = some (decodePackets a) := by
+  have e : later.foldl (fun w d => (decodeShared w d).1) (decodeShared w a).1
+      = (later.map decodePackets).foldl winPush (winPush w (decodePackets a)) := by
+    rw [List.foldl_map]; rfl
+  rw [e]
+  have := window_stable (later.map decodePackets) (winPush w (decodePackets a)) (decodePackets a) 0
+    (winPush_head _ _) (by simpa using hl)
+  simpa using this
+
+/-- **No client input brings the server down**: whatever bytes arrive in a Data packet of a
+working session (any dictionary, any inflate behaviour), the session either hands a message
+to its owner or is closed — the reader goroutine (which has no `recover`) never panics. -/
+theorem session_never_crashes (E : Env) (body : Bytes) : sessionData E body ≠ .crash := by
+  unfold sessionData
+  have := decode_total E body
+  cases h : decodeMsg E body with
+  | ok m => simp
+  | err e => simp
+  | oob => exact absurd h this
+
+/-- … and closes exactly on a decode error -/
+theorem session_closed_iff (E : Env) (body : Bytes) :
+    sessionData E body = .closed ↔ ∃ e, decodeMsg E body = .err e := by
+  unfold sessionData
+  cases h : decodeMsg E body with
+  | ok m => simp
+  | err e => simp
+  | oob => simp
+
+/-- a well-formed message sent by a client is delivered with the fields the owner is given
+(`ClientReqId = uint32(ID)`, route, payload) -/
+theorem session_delivers_encoded (E : Env) (m : Msg)
+    (hid : m.id < 2 ^ 64) (hrl : m.route.length ≤ 255)
+    (hdict : ∀ r c, E.routes r = some c → E.codes c = some r ∧ c < 65536)
+    (hz : ∀ d, E.inflate (E.deflate d) = some d) :
+    sessionData E (encodeMsg E m) = .delivered ((carried m).id % 2 ^ 32) (carried m).route m.data := by
+  unfold sessionData
+  rw [decode_encode E m hid hrl hdict hz]
+  rfl
+
+/-- the m3 input: route-compression bit set, code not in the dictionary ⇒ closed -/
+example : sessionData E0 [0x03, 0xFF, 0xFF] = .closed := by decide
+example : sessionData E0 (encodeMsg E0 ⟨.request, 2 ^ 32 + 5, [97], [1], false⟩) = .delivered 5 [97] [1] :=
+  session_delivers_encoded E0 _ (by decide) (by decide) (by simp [E0]) (by simp [E0])
+
 end Cell2v.Props.C06
